@@ -5,6 +5,7 @@ import (
 	"io"
 	"math/rand"
 	"os"
+	"strings"
 
 	"hpverif/internal/core"
 	"hpverif/internal/fsx"
@@ -14,7 +15,9 @@ import (
 
 // C17: closed handles fail cleanly; handles never resurrect removed names.
 
-var c17methods = []string{"H.Read", "H.ReadAt", "H.Write", "H.WriteAt", "H.Seek", "H.Stat", "H.ReadDir", "H.Truncate", "H.Chmod", "H.Sync", "H.Close"}
+var c17methods = []string{"H.Read", "H.ReadAt", "H.Write", "H.WriteAt", "H.Seek", "H.Stat", "H.ReadDir", "H.Truncate", "H.Chmod", "H.Sync", "H.Close",
+	// argument variants that an implementation might special-case before looking at the handle's state
+	"H.Seek/cur0", "H.Seek/end0", "H.Seek/cur1", "H.Read/0", "H.ReadAt/0", "H.Write/empty", "H.WriteAt/empty", "H.Truncate/0", "H.ReadDir/all", "H.ReadDir/0"}
 var c17kinds = []string{"ro", "wo", "rw", "rw+app", "dir"}
 
 type c17case struct {
@@ -33,8 +36,14 @@ func c17cases(env *core.Env) []c17case {
 				continue
 			}
 			for _, m1 := range c17methods {
+				if strings.Contains(m1, "/") {
+					cs = append(cs, c17case{Part: "closed", Subject: s, Kind: k, M1: m1, M2: "H.Stat"})
+					continue
+				}
 				for _, m2 := range c17methods {
-					cs = append(cs, c17case{Part: "closed", Subject: s, Kind: k, M1: m1, M2: m2})
+					if !strings.Contains(m2, "/") {
+						cs = append(cs, c17case{Part: "closed", Subject: s, Kind: k, M1: m1, M2: m2})
+					}
 				}
 			}
 		}
@@ -68,6 +77,10 @@ func init() {
 }
 
 func c17step(m string) fsx.Step {
+	variant := ""
+	if i := strings.Index(m, "/"); i >= 0 {
+		m, variant = m[:i], m[i+1:]
+	}
 	st := fsx.Step{K: m, Slot: 0}
 	switch m {
 	case "H.Read", "H.ReadAt", "H.ReadDir":
@@ -76,6 +89,22 @@ func c17step(m string) fsx.Step {
 		st.Data = "late"
 	case "H.Chmod":
 		st.Perm = 0o600
+	case "H.Truncate":
+		st.Off = 4
+	}
+	switch variant {
+	case "cur0":
+		st.Whence = io.SeekCurrent
+	case "end0":
+		st.Whence = io.SeekEnd
+	case "cur1":
+		st.Whence, st.Off = io.SeekCurrent, 1
+	case "0":
+		st.N, st.Off = 0, 0
+	case "empty":
+		st.Data = ""
+	case "all":
+		st.N = -1
 	}
 	return st
 }
@@ -151,6 +180,9 @@ func c17closed(env *core.Env, cs c17case, res *core.CaseResult) {
 	}
 	for i, m := range []string{cs.M1, cs.M2} {
 		st := c17step(m)
+		if i := strings.Index(m, "/"); i >= 0 {
+			m = m[:i] + "(" + m[i+1:] + ")"
+		}
 		sr := fsx.Exec(sub.fs, st, &sh, nil)
 		rr := fsx.Exec(ref, st, &rh, nil)
 		res.Count("calls_after_close", 1)
@@ -165,7 +197,7 @@ func c17closed(env *core.Env, cs c17case, res *core.CaseResult) {
 		case sr.Panic != "":
 			res.Violate(sigBase+"got=panic,want=error", detail, cs)
 			return
-		case sr.Err == "ok":
+		case sr.Err == "ok" && rr.Err != "ok": // (a closed os.File accepts zero-length ReadAt/WriteAt; nothing is demanded there)
 			res.Violate(sigBase+"got=ok,want=error", detail, cs)
 		case rr.Err == "ErrClosed" && sr.Err != "ErrClosed":
 			res.Violate(sigBase+"got="+sr.Err+",want=ErrClosed", detail, cs)
